@@ -38,7 +38,7 @@ func VerifState(l Log) string {
 		b.WriteString("]")
 	}
 	if w := lg.writer; w != nil {
-		fmt.Fprintf(&b, "W[o=%d msz=%d isz=%d mv=%v v=%v same=%v]", w.segment.Offset, w.messages.Size(), w.items.Size(), w.messages.Version(), w.version, w.reader == lg.readers[len(lg.readers)-1])
+		fmt.Fprintf(&b, "W[o=%d msz=%d isz=%d mv=%v v=%v same=%v]", w.segment.Offset, w.messages.Size(), w.items.Size(), w.messages.Version(), w.version, len(lg.readers) > 0 && w.reader == lg.readers[len(lg.readers)-1])
 	}
 	return b.String()
 }
